@@ -197,6 +197,15 @@ def op_pool(spec):
         ops.append({"k": "verify-reg", "key": pub, "tok": tname, "reg": "jws-tenant"})
         ops.append({"k": "verify-reg", "key": pub, "tok": tname, "reg": "jws-all"})
         ops.append({"k": "verify-reg", "key": pub, "tok": f"jws:{name}:{alg}", "reg": "jws-tenant"})   # required parameter missing
+    # a shared registry handed over together with algorithms= (the call may fail for a reason of its own: tampered token)
+    for name, alg in (("hs", "HS256"), ("ec", "ES256"), ("rsa", "RS256")):
+        pub = name if spec["keys"][name]["jwk"]["kty"] == "oct" else name + ".pub"
+        for tk in ("jws", "jws-bad"):
+            ops.append({"k": "verify-reg", "key": pub, "tok": f"{tk}:{name}:{alg}", "reg": "jws-all", "also_algorithms": [alg]})
+            ops.append({"k": "verify-reg", "key": pub, "tok": f"{tk}:{name}:{alg}", "reg": "jws-hs", "also_algorithms": ["HS256", "ES256"]})
+    for tname in ("jwe:oct128:A128KW:A128GCM", "jwe-bad:oct128:A128KW:A128GCM", "jwe:ec:ECDH-ES:A256GCM", "jwe-bad:ec:ECDH-ES:A256GCM"):
+        _, name, alg, enc = tname.split(":")
+        ops.append({"k": "decrypt", "key": name, "alg": alg, "enc": enc, "tok": tname, "via": "key", "reg": "jwe-all", "also_algorithms": [alg, enc]})
     ops.append({"k": "keyset", "keys": ["ec", "ed", "rsa"]})
     ops.append({"k": "keyset", "keys": ["hs", "ec.pub", "x"]})
     ops.append({"k": "keyset-export", "keys": ["ec", "ed448", "rsa.pub"]})
@@ -286,7 +295,8 @@ def exec_op(w: World, o: dict):
                 r = j.jws.deserialize_json(copy.deepcopy(t), kk, algorithms=al)
             return ("ok", r.payload.hex())
         if k == "verify-reg":
-            r = j.jws.deserialize_compact(w.spec["tokens"][o["tok"]], key, registry=w.reg[o["reg"]])
+            extra = {"algorithms": list(o["also_algorithms"])} if "also_algorithms" in o else {}
+            r = j.jws.deserialize_compact(w.spec["tokens"][o["tok"]], key, registry=w.reg[o["reg"]], **extra)
             return ("ok", r.payload.hex())
         if k == "sign-shared-set":
             payload = b"c20 shared set " + o["alg"].encode()
@@ -342,6 +352,8 @@ def exec_op(w: World, o: dict):
             kk = key if o["via"] == "key" else j.KeySet([key])
             t = w.spec["tokens"][o["tok"]]
             kw = {"registry": w.reg[o["reg"]]} if o.get("reg") else ({"algorithms": [o["alg"], o["enc"]]} if o["alg"] else {})
+            if "also_algorithms" in o:
+                kw["algorithms"] = list(o["also_algorithms"])
             if isinstance(t, str):
                 r = j.jwe.decrypt_compact(t, kk, **kw)
             else:
